@@ -195,3 +195,63 @@ Proof.
     destruct (Nat.ltb_spec u (S u)); [|lia]. cbn [andb]. rewrite Z.eqb_refl. reflexivity. }
   exists lb2, lb3. repeat (split; [assumption|]). split; reflexivity.
 Qed.
+
+(* ------------------------------------------------------------------ the corollary on the C text *)
+Section Chain.
+  Variable ext : nat -> list val -> mem -> res (val * mem).
+  Variables (fuelR dR : nat).
+  Hypothesis Hext : ext_is_replace ext fuelR dR.
+  Variables (d fuel : nat).
+
+  Theorem tr_undo_inverts_edit (m : mem) bl (blk : block) bh (hblk : block) lb (bufv : val) buf b e cap0 cap' :
+    cp_oracle ext Tc bl -> urep Tc m bl blk bh hblk lb -> bufarg m bl bh bufv buf ->
+    (forall bb o, bufv = VPtr bb o -> ~ In bb (log_blocks hblk 0 (length (hist lb)))) ->
+    (forall bb o fp, bufv = VPtr bb o -> Tc m (tcells blk) fp (ln lb) -> ~ In bb fp) ->
+    (forall bb s o, bufv = VPtr bb o -> str_at m bb s -> Z.of_nat (length s) + 2 <= 2147483647) ->
+    (b <= e)%nat -> i31 e -> i31 (length (ln lb) + linecount buf) -> Z.of_nat (hist_sz lb) * 2 <= 2147483647 ->
+    (length (hist lb) + 35 < fuel)%nat -> (linecount buf < fuel)%nat ->
+    let b' := Nat.min b (length (ln lb)) in let e' := Nat.min e (length (ln lb)) in
+    let need := Z.of_nat (length (ln lb)) + Z.of_nat (linecount buf) - Z.of_nat (e' - b') in
+    nth_error blk L_ln_sz = Some (VInt (Z.of_nat cap0)) -> IoDefs.grow (IoDefs.grow_fuel need) need (Z.of_nat cap0) = Some cap' -> cap' <= 2147483647 ->
+    (splice_fuel (length (ln lb)) (linecount buf) (e' - b') <= fuelR)%nat ->
+    (forall (m1 : mem) (blk1 : block),
+       callx ext cprog fuel (S (S (S (S d)))) F_lbuf_opt [VPtr bl 0; bufv; VInt (Z.of_nat b'); VInt (Z.of_nat (e' - b'))] m = Ok (VUndef, m1) ->
+       nth_error m1 bl = Some blk1 ->
+       forall k, (k < 32)%nat -> exists z, nth_error blk1 k = Some (VInt z) /\ row_fits (Z.of_nat b') (Z.of_nat (e' - b')) (Z.of_nat (linecount buf)) z) ->
+    (* the edit is a change, the only one of its command, on well-formed lines *)
+    Nat.eqb b' e' && is_none buf = false -> lone_edit lb -> Forall line_wf (ln lb) ->
+    let lb1 := lbuf_edit lb buf b e in let lb2 := undo1 lb1 in
+    undo_ok lb1 -> redo_ok lb2 ->
+    (* marks, capacity and text length at the entry of the undo and of the redo, on the memories the run reaches *)
+    (forall m1, callx ext cprog fuel (S (S (S (S (S d))))) F_lbuf_edit [VPtr bl 0; bufv; VInt (Z.of_nat b); VInt (Z.of_nat e)] m = Ok (VUndef, m1) ->
+       let lo := nth (hist_u lb1 - 1) (hist lb1) dflt in step_ok fuelR bl m1 (length (ln lb1)) (del lo) (pos lo) (n_ins lo)) ->
+    (forall m1 m2, callx ext cprog fuel (S (S (S (S (S d))))) F_lbuf_edit [VPtr bl 0; bufv; VInt (Z.of_nat b); VInt (Z.of_nat e)] m = Ok (VUndef, m1) ->
+       callx ext cprog fuel (S (S (S (S d)))) F_lbuf_undo [VPtr bl 0] m1 = Ok (VInt 0, m2) ->
+       let lo := nth (hist_u lb2) (hist lb2) dflt in step_ok fuelR bl m2 (length (ln lb2)) (ins lo) (pos lo) (n_del lo)) ->
+    exists (m1 m2 m3 : mem) (blk2 blk3 : block) bh' (hblk' : block),
+      callx ext cprog fuel (S (S (S (S (S d))))) F_lbuf_edit [VPtr bl 0; bufv; VInt (Z.of_nat b); VInt (Z.of_nat e)] m = Ok (VUndef, m1) /\
+      callx ext cprog fuel (S (S (S (S d)))) F_lbuf_undo [VPtr bl 0] m1 = Ok (VInt 0, m2) /\
+      callx ext cprog fuel (S (S (S (S d)))) F_lbuf_redo [VPtr bl 0] m2 = Ok (VInt 0, m3) /\
+      urep Tc m2 bl blk2 bh' hblk' lb2 /\ ln lb2 = ln lb /\
+      urep Tc m3 bl blk3 bh' hblk' (redo1 lb2) /\ ln (redo1 lb2) = edit_text (ln lb) buf b e.
+  Proof.
+    intros HC R Hbuf Hnb Hout Hlen2 Hbe Hie Hin Hsz2 Hf1 Hf2 b' e' need Ccap Hgrow Hcap' HfR Hmarks Hcase Hlone Hwf lb1 lb2 Hok1 Hok2 Hobs1 Hobs2.
+    pose proof (u_rng _ _ _ _ _ _ _ R) as (_ & (Hu & _) & _).
+    pose proof (tr_lbuf_edit_full ext fuelR dR Hext d fuel m bl blk bh hblk lb bufv buf b e cap0 cap' HC R Hbuf Hnb Hout Hlen2 Hbe Hie Hin Hsz2
+                  ltac:(lia) Hf2 ltac:(lia) Ccap Hgrow Hcap' HfR Hmarks) as E.
+    cbv zeta in E. fold b' e' in E. rewrite Hcase in E. destruct E as (m1 & blk1 & bh1 & hblk1 & C1 & R1). fold lb1 in R1.
+    destruct (edit_then_undo_redo lb buf b e Hwf Hu Hlone Hbe Hcase) as (lb2' & lb3 & Hun & Hln2 & Hre & Hln3 & Hone & Honer & _ & _ & _ & Hu1 & E2 & E3).
+    fold lb1 in Hun, Hln3, Hone, Hu1, E2. subst lb2'. fold lb2 in Hun, Hln2, Hre, Honer, E3. subst lb3.
+    pose proof (tr_lbuf_undo_full ext fuelR dR Hext bl bh1 hblk1 d fuel m1 blk1 lb1 R1 Hok1
+                  (undo_run_fits_one ext fuelR bl hblk1 d fuel m1 lb1 Hone (Hobs1 m1 C1)) ltac:(rewrite Hu1; lia)) as U.
+    rewrite Hun in U. destruct U as (m2 & blk2 & C2 & R2).
+    pose proof (tr_lbuf_redo_full ext fuelR dR Hext bl bh1 hblk1 d fuel m2 blk2 lb2 R2 Hok2
+                  (redo_run_fits_one ext fuelR bl d fuel m2 lb2 Honer (Hobs2 m1 m2 C1 C2))) as V.
+    rewrite Hre in V. destruct V as (m3 & blk3 & C3 & R3).
+    { destruct Honer as (X & _). pose proof (u_rng _ _ _ _ _ _ _ R2) as (_ & (Y & Z) & _).
+      assert (length (hist lb2) = S (hist_u lb)) by (change (hist lb2) with (hist lb1); unfold lb1, lbuf_edit; fold b' e'; rewrite Hcase; cbn [lbuf_replace set_ln lbuf_opt hist]; rewrite app_length, firstn_length; cbn [length]; lia).
+      lia. }
+    exists m1, m2, m3, blk2, blk3, bh1, hblk1. repeat (split; [assumption|]).
+    rewrite Hln3. unfold lb1, lbuf_edit, edit_text. fold b' e'. rewrite Hcase. reflexivity.
+  Qed.
+End Chain.
